@@ -1109,8 +1109,14 @@ class Literal(Variable[T]):
         original_data = data
         data = [data]
         if not type_:
-            original_data_lst = make_list(original_data)
-            first_value = original_data_lst[0] if len(original_data_lst) > 0 else None
+            if hasattr(original_data, "__next__"):
+                # a one-shot iterator: guessing the type from its first value would consume the user's data
+                first_value = None
+            else:
+                original_data_lst = make_list(original_data)
+                first_value = (
+                    original_data_lst[0] if len(original_data_lst) > 0 else None
+                )
             type_ = type(first_value) if first_value is not None else None
         if name is None:
             if type_:
